@@ -22,6 +22,12 @@ CLAIMED = {
  "C18": ("exploration", "runtime monitoring: callback-trace oracle (recorded token/production/evaluation callbacks vs the post-order of a reference derivation) with error injection at every step",
          "The real lexer+parser is run on generated specifications with recording callbacks; the log, the evaluation arguments (values and positions) and the final value are compared with the reference reader's derivation; for every step of sampled runs a sentinel error is injected and the parse must stop there and return it.",
          "Trusted base: R1 reference reader (cross-validated against the tables by C04).", "5/C18"),
+ "C01": ("exploration", "runtime monitoring: differential reference-model oracle (bounded-language least fixpoints of the EBNF text vs of the observed productions) over observed spec.Parse results",
+         "Each generated specification is parsed by the real spec.Parse; for start and every user rule the set of terminal strings up to length k derivable from the observed productions is compared with the set the EBNF operator tree denotes (independent reader + fixpoint evaluator); plus structural invariants of synthesised non-terminals. Exhaustive for small operator trees and for the operator-selection families.",
+         "Trusted base: R1 reader and R3 bounded-language evaluator. Equality is up to length k (adaptive, at most 5 quick / 7 thorough). Open findings D2a/D2b (name collisions) are listed in known_findings.json.", "5/C01"),
+ "C20": ("exploration", "runtime monitoring: reference-reader oracle over observed diagnostics (first offending element, position, tail independence)",
+         "Every single-token edit and truncation of generated specifications, and stray/unterminated lexical elements at every gap, are fed to spec.Parse, ebnf ast.Parse and Parser.Parse (CLI for a sample); the reported file:line:col must be that of the first offending element per the reference reader, early ends must not blame an earlier token, and replacing the tail must not change the message.",
+         "Trusted base: R1 reader (its error index is cross-validated against the tables by C04).", "5/C20"),
 }
 
 PENDING_REASON = "check not built yet in this round (planned, see DESIGN.md section 5)"
